@@ -21,6 +21,13 @@ BASE_ASSUMPTIONS = [
     "floats are treated as mathematical reals (no rounding, no overflow); NaN exists only where a contract introduces it",
     "single-threaded, left-to-right evaluation; `with E: B` calls __enter__ then B then __exit__ exactly once, also when B raises",
     "extraction drops docstrings, annotations, warnings.warn, dtype/device/contiguous/detach conversions (value identity)",
+    "extraction drops decorators other than property / setter / classmethod / staticmethod (@cached, @recall_grad_state, functools.wraps): "
+    "memoisation and grad-mode switching do not change values; what a cache key depends on is exercised only by the bounded tier",
+    "default-argument expressions are evaluated once, at definition time, in the class-body initial state (CPython semantics)",
+    "callee contracts introduced by a harness (contracts/stubs.Stub objects, call / attribute hooks: linear solves, Cholesky factors, kernels' forward, "
+    "sub-modules) are ASSUMED unless the contract's docstring names the property whose proof tier discharges them",
+    "sums over symbolic extents are uninterpreted SUMF atoms normalised by linearity; exp / log / sqrt / trigonometric / Phi are uninterpreted with ground axioms; "
+    "identities closed by the sympy CAS back end trust sympy's polynomial / exp-log normal forms (cross-checked numerically)",
 ]
 
 
